@@ -105,6 +105,8 @@ def run_shard(spec, res):
                     res.count("histories_with_untranslatable_constraint")
                 run_history(res, al.vars, steps, make, cfg, keep)
                 del keep[:]
+            if track and spec.get("stream", 0) < 2:
+                collision_histories(res, make, cfg, keep, rng)
         elif kind == "exh":
             al = H.Alphabet(rng, w=3, nvars=2, nbools=0)
             n = 0
@@ -125,6 +127,32 @@ def run_shard(spec, res):
     elif kind == "strings":
         strings_shard(spec, res, rng)
     res.count("cache_states_seen", len(res.sets.get("cache_states", ())))
+
+
+def collision_histories(res, make, cfg, keep, rng):
+    """constraint tracking names every asserted constraint; pairs of different constraints that the backend's own
+    (weak) term hash cannot tell apart are searched for and added to one tracked solver"""
+    import claripy
+
+    from vf.gen.build import build
+
+    y = ["bvs", "y8", 8]
+    groups = {}
+    for k in range(256):
+        for t in range(256):
+            d = ["eq", ["add", y, ["bvv", k, 8]], ["bvv", t, 8]]
+            z = claripy.backends.z3.convert(build(d))
+            groups.setdefault(hash(z), {})[z.sexpr()] = d
+    pairs = [list(g.values())[:2] for g in groups.values() if len(g) >= 2]
+    res.count("hash_colliding_constraint_pairs_found", len(pairs))
+    rng.shuffle(pairs)
+    for a, b in pairs[:8]:
+        steps = [{"op": "add", "s": 0, "cons": [a]}, {"op": "add", "s": 0, "cons": [b]}, {"op": "satisfiable", "s": 0, "extra": []}, {"op": "eval", "s": 0, "e": y, "n": 5, "extra": []}, {"op": "max", "s": 0, "e": y, "signed": False, "extra": []}]
+        if rng.random() < 0.5:
+            steps.insert(1, {"op": "satisfiable", "s": 0, "extra": []})
+        run_history(res, {"y8": ("bv", 8)}, steps, make, dict(cfg, colliding_pair=True), keep)
+        res.count("histories_with_hash_colliding_pair")
+        del keep[:]
 
 
 def strings_shard(spec, res, rng):
